@@ -658,6 +658,38 @@ func (c *Ctx) ruleC14NameIsPath() {
 			case strings.HasSuffix(full, "jsight-schema-core/fs.NewFile") && len(call.Args) == 2:
 				rc, _ := definingCall(f, call.Args[1])
 				if rc == nil {
+					// a content variable that is assigned more than once, one of the assignments being a file read: the
+					// bytes are changed on the way (trimmed, a BOM cut off): every offset - the lines of all errors and
+					// traces in that file - is then counted in something else than the file on disk
+					if id := identOf(call.Args[1]); id != nil {
+						obj := pk.TypesInfo.Uses[id]
+						reads, assigns := 0, 0
+						ast.Inspect(f.Decl.Body, func(m ast.Node) bool {
+							if as, ok := m.(*ast.AssignStmt); ok {
+								for i, l := range as.Lhs {
+									if lid := identOf(l); lid != nil && objOf(pk, lid) == obj {
+										assigns++
+										var rhs ast.Expr
+										if len(as.Rhs) == 1 {
+											rhs = as.Rhs[0]
+										} else if i < len(as.Rhs) {
+											rhs = as.Rhs[i]
+										}
+										if rcl, ok := ast.Unparen(rhs).(*ast.CallExpr); ok {
+											if g := callee(pk, rcl); g != nil && fsPrimitive(g) {
+												reads++
+											}
+										}
+									}
+								}
+							}
+							return true
+						})
+						if reads > 0 && assigns > 1 {
+							n++
+							r.Bad("C14-NAME-IS-PATH", key+" (content)", "the bytes read from the file are changed before they become the content of the file object: positions in it (lines of errors and of include traces) are no longer positions in the file on disk", c.pos(call.Pos()))
+						}
+					}
 					return true // content not read from a path here (virtual file, placeholder)
 				}
 				rcal := callee(pk, rc)
@@ -733,6 +765,12 @@ func (c *Ctx) ruleC14RecursionOnlyForCycles() {
 			hit := func(cond ast.Expr, holds bool) bool {
 				if id := identOf(cond); id != nil {
 					return holds && okVars[pk.TypesInfo.Uses[id]]
+				}
+				// the membership test under a name: s.contains(name)
+				if pc, ok := ast.Unparen(cond).(*ast.CallExpr); ok && holds {
+					if g := callee(pk, pc); g != nil && c.membershipPredicate(g) {
+						return true
+					}
 				}
 				// m[k] == <state constant>: the element recorded for the name says "in progress" (the macro cycle
 				// check uses the same message for PASTE cycles)
